@@ -63,7 +63,7 @@ def main():
             if only and not any(m["name"].startswith(o) for o in only):
                 continue
             equiv = "EQUIVALENT" in m.get("note", "")
-            props = [m["property"]] if m["property"] != "none" else ["C03"]
+            props = [m["property"]] if m["property"] != "none" else ["C02", "C03"]
             apply(m["name"])
             t0 = time.time()
             try:
